@@ -451,10 +451,23 @@ public:
       typename ttbl_t::term_map_t gen_map /*unused*/;
 
       // Build up the mapping of right onto left, variable by variable.
-      // Assumption: the set of variables in left & right are common.
       for (auto p : left.m_var_map) {
         if (!left.m_ttbl.map_leq(right.m_ttbl, left.term_of_var(p.first),
                                  right.term_of_var(p.first), gen_map))
+          return false;
+      }
+      // A variable that only the right operand mentions is
+      // unconstrained on the left: its (fresh) left term is mapped too
+      // so that what the right operand says about it is compared.
+      std::vector<variable_t> only_right;
+      for (auto p : right.m_var_map) {
+        if (left.m_var_map.find(p.first) == left.m_var_map.end()) {
+          only_right.push_back(p.first);
+        }
+      }
+      for (auto const &v : only_right) {
+        if (!left.m_ttbl.map_leq(right.m_ttbl, left.term_of_var(v),
+                                 right.term_of_var(v), gen_map))
           return false;
       }
       return true;
